@@ -42,7 +42,11 @@ def oracle_cases(ctx, flags_list, relation, n_corpus, n_mut, origins=None, n_ins
         chosen += rng.sample(rest, min(len(rest), n_corpus - len(chosen)))
     # the first `n_hand` extra programs are the hand-written ones of the property module: they get five cases (two when
     # several flag vectors are run) of 14 instances each; generator programs and programs handed over by a correspondence get one case of 14 instances
+    given = {}
     for i, text in enumerate(extra_programs):
+        if isinstance(text, (tuple, list)):   # (program, [instances that must be among those tried])
+            text, insts = text[0], list(text[1])
+            given[text] = insts
         chosen.append(("hand" if n_hand is None or i < n_hand else "extra", text))
     for origin, text in chosen:
         for flags in flags_list:
@@ -51,7 +55,7 @@ def oracle_cases(ctx, flags_list, relation, n_corpus, n_mut, origins=None, n_ins
                 k += 1
                 cases.append(dict(program=text, inp=pick(inp, k), outp=pick(outp, k), flags=flags, relation=relation,
                                   seed=ctx.seed * 1000003 + k, n_inst=(14 if origin in ("extra", "hand") else n_inst), facts_over=facts_over,
-                                  label=f"corpus:{origin}", one_to_one=one_to_one))
+                                  label=f"corpus:{origin}", one_to_one=one_to_one, extra_instances=given.get(text, [])))
     pool = pref or H
     for j in range(n_mut):
         base = rng.choice(pool)[1]
